@@ -22,6 +22,7 @@ import (
 	"sort"
 	"strings"
 	"sync"
+	"sync/atomic"
 	"syscall"
 	"time"
 )
@@ -372,6 +373,23 @@ func coordinator(args []string) {
 	var wg sync.WaitGroup
 	stop := make(chan struct{})
 	var stopOnce sync.Once
+	// VERIF_STOP_AT_FIRST (sensitivity self-test only, never set by a registered command):
+	// the first violation record ends the exploration at once, and nothing is minimised.
+	fastStop := os.Getenv("VERIF_STOP_AT_FIRST") != ""
+	var fastStopped int32
+	var runMu sync.Mutex
+	running := map[int]*exec.Cmd{}
+	killAll := func() {
+		atomic.StoreInt32(&fastStopped, 1)
+		stopOnce.Do(func() { close(stop) })
+		runMu.Lock()
+		for _, c := range running {
+			if c.Process != nil {
+				c.Process.Kill()
+			}
+		}
+		runMu.Unlock()
+	}
 	harnessErr := make(chan string, 64)
 	bsz := d.BatchSize(*tier)
 	tzs := []string{"", "UTC", "Asia/Shanghai", "America/New_York", "Europe/London", "Asia/Tokyo", "Australia/Sydney", "Asia/Kolkata"}
@@ -402,6 +420,12 @@ func coordinator(args []string) {
 				if err := cmd.Start(); err != nil {
 					harnessErr <- err.Error()
 					return
+				}
+				runMu.Lock()
+				running[w] = cmd
+				runMu.Unlock()
+				if fastStop && atomic.LoadInt32(&fastStopped) != 0 {
+					cmd.Process.Kill()
 				}
 				sc := bufio.NewScanner(out)
 				sc.Buffer(make([]byte, 1<<20), 1<<28)
@@ -446,11 +470,25 @@ func coordinator(args []string) {
 						rr := r
 						a.viols = append(a.viols, &rr)
 						gotViol = true
+						if fastStop {
+							go killAll()
+						}
 					}
 					a.mu.Unlock()
 				}
 				err = cmd.Wait()
+				runMu.Lock()
+				delete(running, w)
+				runMu.Unlock()
 				cleanupRaceLogs(*scratch, w, b)
+				if fastStop && atomic.LoadInt32(&fastStopped) != 0 {
+					if lastStart > 0 {
+						a.mu.Lock()
+						a.runs += int64(lastStart)
+						a.mu.Unlock()
+					}
+					return
+				}
 				if err != nil {
 					if sig, ok := classifyCrash(stderr.String()); ok && lastStart >= 0 {
 						// the process was killed by a fault inside the code under test
@@ -471,6 +509,10 @@ func coordinator(args []string) {
 						a.runs += int64(lastStart)
 						n := len(a.viols)
 						a.mu.Unlock()
+						if fastStop {
+							killAll()
+							return
+						}
 						if n >= 24 {
 							stopOnce.Do(func() { close(stop) })
 							return
@@ -534,7 +576,7 @@ func coordinator(args []string) {
 		rf.Property, rf.Expect, rf.Kind, rf.Detail = d.ID(), sig, rec.Viol.Kind, clip(rec.Viol.Detail)
 		rf.Seed = *seed
 		md := minDeadline
-		if n >= 6 {
+		if n >= 6 || fastStop {
 			md = time.Now() // many signatures: verify the replay of the rest, do not spend the budget minimising them
 		}
 		rf = verifyAndMinimise(self, d, rf, *scratch, md)
@@ -614,7 +656,7 @@ func coordinator(args []string) {
 	}
 	fmt.Printf("%s tier=%s seed=%d runs=%d distinct_nontrivial=%d worker_processes=%d wall=%.1fs violations(new)=%d known=%d\n",
 		d.ID(), *tier, *seed, a.runs, len(a.hashes), a.batches, wall, newViol, len(sigs)-newViol)
-	if a.runs == 0 {
+	if a.runs == 0 && !(fastStop && newViol > 0) {
 		fmt.Fprintln(os.Stderr, "HARNESS-ERROR: no simulated run completed")
 		os.Exit(2)
 	}
